@@ -145,6 +145,27 @@ def families(rng):
     F['nested-mappingproxy'] = lambda n: nest(n, lambda v, i: types.MappingProxyType({'k': v}))
     F['nested-exception'] = lambda n: nest(n, lambda v, i: ValueError('msg', v))
     F['nested-tuple-as-dict-key'] = lambda n: {nest(n, lambda v, i: (v, i)): 'x'}
+    # comments x every wrapper: the child carries a comment / the container a trailing comment, at every level
+    class HK:
+        def __init__(self, **k):
+            self.k = k
+    P.register_pretty(HK)(lambda v, ctx: P.pretty_call(ctx, HK, **v.k))
+    tcm = P.trailing_comment
+    combos = {
+        'list': lambda x, i: [x], 'list2': lambda x, i: [i, x], 'tuple': lambda x, i: (x,), 'dict': lambda x, i: {'k': x},
+        'call-sole-arg': lambda x, i: H(x), 'call-sole-list': lambda x, i: H([x]), 'call-sole-dict': lambda x, i: H({'k': x}), 'call-sole-tuple': lambda x, i: H((x, i)),
+        'call-2args': lambda x, i: H(i, x), 'call-kwarg': lambda x, i: HK(key=x), 'call-2kwargs': lambda x, i: HK(a=i, b=x),
+        'dict-subclass': lambda x, i: MyDict({'k': x}), 'list-subclass': lambda x, i: MyList([x]),
+        'ordereddict': lambda x, i: collections.OrderedDict([('k', x)]), 'deque': lambda x, i: collections.deque([x]),
+        'namespace': lambda x, i: types.SimpleNamespace(child=x), 'namedtuple': lambda x, i: NT(i, x),
+        'defaultdict': lambda x, i: collections.defaultdict(list, {'k': x}), 'chainmap': lambda x, i: collections.ChainMap({'k': x}),
+        'partial': lambda x, i: functools.partial(H, x, key=i), 'mappingproxy': lambda x, i: types.MappingProxyType({'k': x}),
+    }
+    for cname, wrap in combos.items():
+        F['commented-child-in-%s' % cname] = (lambda n, wrap=wrap: nest(n, lambda v, i: wrap(c(v, 'note %d' % i), i)))
+        # a commented CONTAINER as the sole / only member of the wrapper
+        F['commented-container-in-%s' % cname] = (lambda n, wrap=wrap: nest(n, lambda v, i: wrap(c([v, i], '%d item(s)' % i), i)))
+        F['trailing-container-in-%s' % cname] = (lambda n, wrap=wrap: nest(n, lambda v, i: wrap(tcm([v], 'tail %d' % i), i)))
     # seeded random wrapper recipes
     wrappers = [lambda v, i: [v], lambda v, i: {'k': v}, lambda v, i: (v, i), lambda v, i: H(v),
                 lambda v, i: [c(v, 'c')], lambda v, i: {'k': c(v, 'c')}, lambda v, i: {'a': 1, 'b': v, 'c': 3},
